@@ -398,7 +398,7 @@ def setBuiltIn (b : Bool) (d : SchemaDoc) : SchemaDoc :=
            extensions := d.extensions.map fun x => { x with builtIn := b } }
 
 def runSchema (limit src : Nat) (inp : Bytes) : SchemaDoc × PState :=
-  run (parseSchemaDocument (fuelFor inp)) (PState.init limit src inp)
+  run limit (parseSchemaDocument (fuelFor inp)) (PState.init src inp)
 
 /-- `ParseSchema` (`limit = 0`) / `ParseSchemaWithLimit`; `src` is the index of the source and
     `builtIn` its `BuiltIn` flag -/
